@@ -35,6 +35,25 @@ CHECKS = {
              "non-computable / non JSON-serialisable errors list, or a mutated input is a violation.",
         design_ref="7 C03", technique="TLA+ outcome-class model + trace validation of recorded calls on exotic data",
         note=DESER_NOTE + " 'Any Python object' is sampled by ~20 kinds."),
+    "C13": dict(
+        category="model_checking",
+        text="spec/DataModel.tla carries, next to the reference rule 'first accepting alternative', an "
+             "implementation-shaped layer for unions (strategy selection Optional / by-type dispatch / in order, and "
+             "their execution, discriminator dispatch). TLC checks DispatchEqSequential (same acceptance, same image up "
+             "to the int/float ambiguity, errors within the sandwich) for every ordered pair and sampled triples of "
+             "alternatives from a pool with alternatives sharing a JSON type x type-directed data; a negative check "
+             "requires the by-type dispatch of the pinned tree (deviation nofloatfallback) to violate it. Every case is "
+             "replayed in the real code; recorded random union types are validated by the TLC trace spec.",
+        design_ref="7 C13", technique="TLA+ two-layer union semantics, TLC refinement invariant + replay + trace validation",
+        note=DESER_NOTE + " Serialization side of unions (first matching class, discriminator key, TaggedUnion) is decided with C04/C05."),
+    "C14": dict(
+        category="model_checking",
+        text="Same pipeline with the documented coercion table (CoerceTo) as part of the reference semantics: TLC checks "
+             "CoerceWidens (strict acceptance implies acceptance under coercion) over the universes enriched with "
+             "numeric strings, boolean words and ''; every case is replayed with coerce=True, and every strict case is "
+             "replayed again with an identity custom coercer (whose result is type-checked, so it must equal strict mode).",
+        design_ref="7 C14", technique="TLA+ coercion table in the reference semantics, TLC invariant + replay (coerce=True, custom coercer)",
+        note=DESER_NOTE),
     "C10": dict(
         category="model_checking",
         text="spec/Validators.tla is a state machine at the grain of ObjectMethod.deserialize + validate() (field loop, "
